@@ -3,7 +3,7 @@
 From Coq Require Import Arith Lia Bool List ZArith QArith Qcanon.
 From QV Require Import CRing Sums Quat Mat QMat.
 From QVM Require Import LU LUexec.
-From QVT Require Import LUthm LUinst.
+From QVT Require Import LUthm LUinst LUmult.
 Import ListNotations.
 Close Scope Q_scope. Open Scope nat_scope.
 
@@ -50,6 +50,11 @@ End P.
 Theorem C07_exec_PA_eq_LU m n A Wf IPf : luQ m n A = Some (Wf, IPf) ->
   forall i c, i < m -> c < n -> A (IPf i) c = qmm (Nat.min m n) (Lof QcR Wf) (Uof QcR Wf) i c.
 Proof. exact (luQ_PA_eq_LU m n A Wf IPf). Qed.
+(* every multiplier of the executed instance has modulus at most 1 (partial pivoting picks the arg-max of the
+   squared modulus and the quotient is formed with a non-small pivot) *)
+Theorem C07_exec_multipliers_at_most_one m n A Wf IPf : luQ m n A = Some (Wf, IPf) ->
+  forall i k, k < i < m -> k < n -> (qn2Q (Lof QcR Wf i k) <= 1)%Qc.
+Proof. exact (luQ_multipliers_le_1 m n A Wf IPf). Qed.
 Theorem C07_exec_two_output m n A Wf IPf : luQ m n A = Some (Wf, IPf) ->
   forall i c, i < m -> c < n -> A (IPf i) c = qmm (Nat.min m n) (Lperm QcR m Wf IPf) (Uof QcR Wf) (IPf i) c.
 Proof. exact (luQ_two_output m n A Wf IPf). Qed.
@@ -68,3 +73,4 @@ Print Assumptions C07_two_output_A_eq_LU.
 Print Assumptions C07_raises_or_reproduces.
 Print Assumptions C07_exec_PA_eq_LU.
 Print Assumptions C07_exec_two_output.
+Print Assumptions C07_exec_multipliers_at_most_one.
